@@ -6,7 +6,10 @@ def decode(p):
     f = p.split(" ")
     try:
         src = bytes.fromhex(f[0]) if f[0] != "-" else b""
-        return {"source": src.decode("utf8", "backslashreplace"), "tokens": 0 if f[1] == "-" else len(f[1].split(","))}
+        txt = src.decode("utf8", "backslashreplace")
+        if len(txt) > 300:
+            txt = txt[:200] + " …(%d bytes)" % len(src)
+        return {"source": txt, "tokens": 0 if f[1] == "-" else len(f[1].split(","))}
     except Exception:
         return p
 
@@ -18,7 +21,7 @@ SPEC = dict(
           "length <=3 over 20 symbols, every sequence of <=3 (quick) / <=4 (thorough) token texts over the 40 most "
           "structural tokens, 5k/100k mutants of 18 valid programs (delete/duplicate/swap/replace tokens, unbalance "
           "brackets, stray ; } ) inside blocks, truncate), ~1.5k guards containing bracketed/parenthesised brace expressions, "
-          "~630 try statements with errors inside except/otherwise/finally clauses, 2k/20k strings with invalid UTF-8 and control characters. "
+          "~630 try statements with errors inside except/otherwise/finally clauses, 2k/20k strings with invalid UTF-8 and control characters, 3 long-tail inputs (early error followed by 10^5 tokens). "
           "The real lexer's token list is part of the case; compared: tree shape (names, token values, raw flag; no "
           "positions) or error kind+line+col, model verdicts wf=1 (WellFormed on the identical tree) and leak=0 measured by goroutine accounting around parser.Parse. "
           "Non-trivial = the token list has at least 3 tokens."),
@@ -26,7 +29,7 @@ SPEC = dict(
     trusted_base=[
         "the token list handed to the model parser is produced by the real lexer (parser.LexToList); the lexer itself is not modelled here (C18/C08)",
         "the 3-slot look-ahead ring is not modelled in the parser model (argued invisible, notes in Model/Parser.lean) and over-approximated in the channel model",
-        "goroutine accounting: runtime.NumGoroutine settling (<=2 s) + goroutine profile filtered on parser.(*lexer).run",
+        "goroutine accounting AT RETURN TIME: directly after parser.Parse returns the goroutine dump is searched for frames of package parser; only a lexer goroutine past its close() (single frame (*lexer).run) is given time to end; long-tail inputs (10^5 tokens after a first-token error) keep anything asynchronous busy at that moment",
     ],
     assumptions=[],
     decode=decode,
